@@ -106,7 +106,21 @@ def reader_call(rng, t, rd, present, path):
         def cp():
             dst = path + f".copy{rng.getrandbits(30):x}"
             try:
-                return t.copy(dst)
+                new = t.copy(dst)
+                # the copy is a new object on a new file: without its own allow_write() a plain context on it
+                # must refuse mutations and leave the copy's bytes alone
+                before = sha(dst)
+                blk = lib.build(C.small_block_spec(rng, "events"), {})
+                refused = False
+                try:
+                    with new:
+                        try:
+                            new.add_block(blk, "via copy") if not new.has_events else new.remove_block(lib.BLOCK_TYPE["events"])
+                        except Exception:
+                            refused = True
+                except Exception:
+                    refused = True
+                return ("copy-followup", refused, sha(dst) == before)
             finally:
                 if os.path.exists(dst):
                     os.unlink(dst)
@@ -227,11 +241,18 @@ class Session:
         before = sha(self.path)
         self._phase("reader-in-context" if self.inside else "reader-implicit-context")
         err = None
+        res = None
         try:
-            thunk()
+            res = thunk()
         except Exception as e:
             err = e
         after = sha(self.path)
+        if isinstance(res, tuple) and res and res[0] == "copy-followup":
+            self.rec.count("oracle:C08.copy-is-read-only")
+            if not res[1] or not res[2]:
+                self.V("copy:returned-object-writable-without-allow_write",
+                       f"mutation in a plain context on the object returned by copy(): refused={res[1]}, bytes unchanged={res[2]} "
+                       f"(source inside={self.inside}, ctx_w={self.ctx_w}, armed={self.armed})")
         self.rec.count("oracle:C08.reader-pure")
         self.rec.count(f"c08:reader:{rd}:{'raised' if err else 'ok'}")
         if after != before:
